@@ -419,7 +419,11 @@ pub struct ViolationInfo {
 impl ViolationInfo {
     /// Class used by the minimiser: same invariant family keeps failing.
     pub fn class(&self) -> String {
-        self.invariant.clone()
+        match self.invariant.as_str() {
+            // "something that must not change did change / an equal context gives another result"
+            "I2-root" | "I2-scope" | "I2-private-root" | "I4" | "I4-bound" | "I5a-reexec" | "I5a-twin" | "I3-references" | "I3-reexec" => "purity".to_string(),
+            other => other.to_string(),
+        }
     }
 }
 
